@@ -18,6 +18,7 @@ type ExecVariant struct {
 	Seed     uint64  `json:"seed,omitempty"`
 	Sched    string  `json:"sched,omitempty"`    // controlled worker schedule policy ("" = free running)
 	FailEncode int   `json:"fail_encode,omitempty"` // the k-th element Encode call of every deterministic commit fails once (the commit is then retried)
+	Elem     int     `json:"elem,omitempty"`     // element-granular worker yields: park at every Elem-th callback inside a worker job (0 = job granularity only)
 }
 
 func (v ExecVariant) String() string { b, _ := json.Marshal(v); return string(b) }
@@ -250,7 +251,7 @@ func init() {
 			variants = append(variants, ExecVariant{Workers: []int{1, 2, 3, 8, 64}[vr.Intn(5)], GCProb: 0.3, Seed: vr.U64()}, ExecVariant{Seed: vr.U64()})
 		}
 		if scheduledCommit != nil {
-			variants = append(variants, ExecVariant{Sched: []string{"random", "last", "first", "rr"}[vr.Intn(4)], Workers: []int{2, 3, 8}[vr.Intn(3)], Seed: vr.U64()})
+			variants = append(variants, ExecVariant{Sched: []string{"random", "last", "first", "rr"}[vr.Intn(4)], Workers: []int{2, 3, 8}[vr.Intn(3)], Seed: vr.U64(), Elem: []int{0, 1, 2, 5}[vr.Intn(4)]})
 		}
 		var base []commitPoint
 		for _, variant := range variants {
